@@ -6,6 +6,7 @@ executable Spec predicates the oracle evaluates on the implementation's yields (
 import OFV.Proofs.C18PairBetween
 import OFV.Proofs.C18PairWithin
 import OFV.Proofs.C18Padding
+import OFV.Proofs.C18Cover
 
 namespace OFV.C18
 open OFV.Model.C18 OFV.Spec.C18 OFV.Proofs.C18
@@ -49,6 +50,28 @@ theorem pair_within_matching (labels : List L) (hnd : labels.Nodup) (hnone : non
 example : (pairWithin [some 5, some 6, some 7, some 8, some 9]).all
     (isMatchingOf [some 5, some 6, some 7, some 8, some 9] 1) = true :=
   (pair_within_matching _ (by decide) (by decide)).2
+
+/-- `pair_within`, every list length: the yields are perfect matchings and together they contain
+every unordered pair of labels (the full statement of the property for `pair_within`).  The proof
+aligns the bare labels of the two recursive halves through a parametricity argument
+(`pairWithinAux_rel`): the pairs skipped by the start offset of `pair_between` are exactly the
+pairs of bare labels produced by the `zip` loop. -/
+theorem pair_within_spec (labels : List L) (hnd : labels.Nodup) (hnone : none ∉ labels) :
+    pairWithinOk labels (pairWithin labels) = true := by
+  simp only [pairWithinOk, Bool.and_eq_true]
+  refine ⟨(pair_within_matching labels hnd hnone).2, ?_⟩
+  simp only [coversPairs, List.all_eq_true, Bool.or_eq_true, beq_iff_eq, List.any_eq_true]
+  intro a ha b hb
+  by_cases hab : a = b
+  · exact Or.inl hab
+  · obtain ⟨p, hp, h⟩ := pairWithin_covers labels hnd hnone a ha b hb hab
+    refine Or.inr ⟨p, hp, ?_⟩
+    simp only [hasPair, Bool.or_eq_true, List.contains_iff_mem]
+    exact h
+
+example : pairWithinOk [some 1, some 2, some 3, some 4, some 5, some 6]
+    (pairWithin [some 1, some 2, some 3, some 4, some 5, some 6]) = true :=
+  pair_within_spec _ (by decide) (by decide)
 
 /-- `_get_padding`: the result is the smallest `L' ≥ bin_size` that has no divisor in
 `[2, num_bins - 1)`; the `while True` search terminates (Bertrand's postulate bounds the Model's fuel). -/
